@@ -144,9 +144,15 @@ variable {T H D : Type} [DecidableEq H]
 
 def lookupIdx (idx : List (H × TxRes D)) (h : H) : Option (TxRes D) := alookup h idx
 
+/-- `gasCalculator.IsEnough()`: the meter has reached its limit, every further strict consume is
+    refused -/
+def gasOut (g : Gas) : Bool := decide (g.consumed ≥ g.limit)
+
 /-- `txDeliverer`: index lookup, session, `Validate` (since the fix "validate transactions in
     DeliverTx"; on failure the session is discarded and neither ProcessDeliver nor ProcessFee
-    runs), `ProcessDeliver`, `ProcessFee` (always called), commit iff both succeeded -/
+    runs), `ProcessDeliver`, `ProcessFee` (always called), commit iff both succeeded and the
+    block gas meter is not exhausted at the end (since the fix "a transaction that used up the
+    block gas has failed") -/
 def deliverTx (cfg : Cfg K V) (hs : Handlers K V C E T H D) (e : E) (n : Node K V C T H D) (tx : T) :
     Node K V C T H D × TxRes D :=
   match lookupIdx n.idx (hs.hash tx) with
@@ -164,7 +170,7 @@ def deliverTx (cfg : Cfg K V) (hs : Handlers K V C E T H D) (e : E) (n : Node K 
       let r1 := (hs.deliver tx).run cfg rv.2.1 rv.2.2 e   -- ProcessDeliver
       let r2 := (hs.fee tx g0).run cfg r1.2.1 r1.2.2 e    -- ProcessFee, always called
       let s2 := r2.2.1
-      let ok := r1.1.isSome && r2.1.isSome
+      let ok := r1.1.isSome && r2.1.isSome && !gasOut s2.gas
       let s3 := if ok then (match s2.csess with | some s => s | none => s2) else s2.dsess
       ({ n with dlv := ovOf s3, tree := s3.tree, vol := r2.2.2, aim := .deliver },
        { ok := ok, data := r1.1, gasUsed := r2.1.getD 0 })
